@@ -176,7 +176,7 @@ class SymEnv(Env):
             if r == "sat":
                 # refuted (the solver found a model but it is not extracted from the external process): a failed obligation
                 # without its own witness; the lemma's native body / probes look for a replayable input
-                self.outcomes.append(Outcome(clause, props, "failed", holes={}, ms=(time.time() - t0) * 1000,
+                self.outcomes.append(Outcome(clause, props, "failed", holes=None, ms=(time.time() - t0) * 1000,
                                              internal=self._internal or "refuted by %s, no model extracted" % why))
                 return False
             self.outcomes.append(Outcome(clause, props, "undecided", ms=(time.time() - t0) * 1000, detail="external:%s" % why))
@@ -259,17 +259,19 @@ class NativeEnv(Env):
         super().__init__()
         self.holes = dict(holes)
 
+    # a counter-model need not mention every hole (model completion / refutations without an extracted model): missing holes
+    # take the least value of their range
     def hole_char(self, name, ranges):
-        return chr(self.holes[name])
+        return chr(self.holes.get(name, ranges[0][0]))
 
     def hole_int(self, name, lo=None, hi=None):
-        return self.holes[name]
+        return self.holes.get(name, lo if lo is not None else 0)
 
     def hole_choice(self, name, options):
-        return options[self.holes[name]]
+        return options[self.holes.get(name, 0)]
 
     def hole_seq(self, name, maxlen=None):
-        return list(self.holes[name])
+        return list(self.holes.get(name, []))
 
     def hole_bytes(self, name, n):
         v = list(self.holes.get(name, []))
@@ -403,9 +405,12 @@ def explore_cell(lemma, cell, interp, timeout_ms=10000, max_paths=4000, replay=T
                 res.undecided.append({"clause": o.clause, "reason": o.detail})
             if o.status == "failed":
                 key = (o.clause,)
-                f = {"clause": o.clause, "props": sorted(o.props), "holes": o.holes}
-                if replay:
-                    f.update(native_replay(lemma, cell, o.holes, o.clause, props=o.props))
+                f = {"clause": o.clause, "props": sorted(o.props), "holes": o.holes or {}}
+                if replay and o.holes is None and o.internal:
+                    # refuted without an extracted model (external solver): nothing to replay; the probes look for a witness
+                    f.update({"native": "no-native-counterpart", "signature": o.internal})
+                elif replay:
+                    f.update(native_replay(lemma, cell, o.holes or {}, o.clause, props=o.props))
                     if f["native"] in ("spurious", "precondition-not-met") and o.internal:
                         f["native"] = "no-native-counterpart"
                         f["signature"] = o.internal
